@@ -312,14 +312,18 @@ bool KDTree<CoordType, ValueType>::delete_node(Node* n) {
   bool was_leaf_node = true;
   while (n->before || n->after_or_equal) {
     was_leaf_node = false;
-    Node* target;
-    if (n->before) {
-      target = KDTree::find_subtree_min_max(n->before, n->dim, true);
-    } else if (n->after_or_equal) {
-      target = KDTree::find_subtree_min_max(n->after_or_equal, n->dim, false);
-    } else {
-      throw std::logic_error("node is a leaf but still claims to be movable");
+    // The replacement must be the minimum (along this node's dimension) of the
+    // after_or_equal subtree, since all other points there are >= it. Taking
+    // the maximum of the before subtree is incorrect when other points in that
+    // subtree share its coordinate, since they would then have to be in the
+    // after_or_equal subtree. If there is no after_or_equal subtree, we take
+    // the minimum of the before subtree instead and move the rest of that
+    // subtree to the after_or_equal side.
+    if (!n->after_or_equal) {
+      n->after_or_equal = n->before;
+      n->before = nullptr;
     }
+    Node* target = KDTree::find_subtree_min_max(n->after_or_equal, n->dim, false);
     n->pt = target->pt;
     n->value = std::move(target->value);
     n = target;
